@@ -144,6 +144,7 @@ func Observe(tag string, x int) {
 func Disjoint(a, b any) bool   { return true }
 func SameObject(a, b any) bool { return reflect.ValueOf(a).Pointer() == reflect.ValueOf(b).Pointer() }
 func Unsupported(why string)   {}
+func Concrete(b bool) bool     { return true }
 
 func ExpectPanic(f func()) (p bool) {
 	defer func() {
